@@ -122,7 +122,7 @@ theorem runParser_count_cluster {q : Parser} (hf : finishable q.opts = true) {o 
     simp only [Bool.false_eq_true, if_false]
     rw [runP]
     simp only [hi, Bool.false_eq_true, if_false, hdd, hcl, closeRun_init, if_true, expand_count hk ho k, ha1, hk,
-      hlast, runP, hfin]
+      hlast, runP, hfin, valueMissing]
     have : ps'.extras = false := by rw [hex]; simp only [setv]; rw [he1]; rfl
     simp [this]
   · rw [hget _ hpc]
@@ -144,7 +144,7 @@ theorem runP_single_noarg2 {tbl : List OptSpec} {s : Name} {o : OptSpec} {b : Bo
   have hi : (PS.init tbl).afterDD = false := rfl
   rw [runP]
   simp only [hi, Bool.false_eq_true, if_false, hs, hc, closeRun_init, applyAll]
-  rcases hk with hk | ⟨v, hk⟩ <;> simp only [hk] <;> cases applyNoArg o (PS.init tbl) <;> simp [runP]
+  rcases hk with hk | ⟨v, hk⟩ <;> simp only [hk] <;> cases applyNoArg o (PS.init tbl) <;> simp [runP, valueMissing, hk]
 
 /-- a `store_false` option alone -/
 theorem runParser_flagOff {q : Parser} (hf : finishable q.opts = true) {s : Name} {o : OptSpec} {b : Bool}
